@@ -265,7 +265,7 @@ impl Boudot2000RangeProof {
         while boolean {
             let w = rand_int(
                 Integer::from(0),
-                (Integer::from(2).pow(T) * Integer::from(2).pow(t + l)) * b - Integer::from(1),
+                Integer::from(2).pow(t + l) * b - Integer::from(1),
             );
             let nu = rand_int(
                 -(Integer::from(2).pow(T) * Integer::from(2).pow(t + l + s)) * n + Integer::from(1),
@@ -284,11 +284,7 @@ impl Boudot2000RangeProof {
             D_1 = w + (x * &c);
             D_2 = nu + (r * &c);
 
-            if c * b <= D_1
-                && D_1
-                    <= (Integer::from(2).pow(T) * Integer::from(2).pow(t + l)) * b
-                        - Integer::from(1)
-            {
+            if c * b <= D_1 && D_1 <= Integer::from(2).pow(t + l) * b - Integer::from(1) {
                 boolean = false;
             }
         }
@@ -324,15 +320,26 @@ impl Boudot2000RangeProof {
         let hash = <H as Digest>::digest(str);
         let output = Integer::from_digits(hash.as_slice(), Order::MsfBe);
 
+        // the proven remainder lies in [-2^(t+l) b, 2^(t+l) b]: b is the bound on the remainder itself (see
+        // remainder_bound), the factor 2^T only concerns the commitment randomness
+        let _ = T;
         if &(c * Integer::from(b)) <= D_1
-            && D_1
-                <= &(Integer::from(2).pow(T) * (Integer::from(2).pow(t + l) * b - Integer::from(1)))
+            && D_1 <= &(Integer::from(2).pow(t + l) * b - Integer::from(1))
             && C == &output
         {
             return true;
         }
 
         false
+    }
+
+    /* Bound on the remainders of the two square decompositions (Section 3.1.1 in [Boudot2000] applied to the scaled
+    interval [2^T a, 2^T b]): x' - 2^T a and 2^T b - x' lie in [0, 2^T (b - a)], so what is left after taking out the
+    largest square is at most 2 sqrt(2^T (b - a)). The larger-interval proof then shows that a remainder is
+    >= -theta with theta = 2^(t+l) * bound < 2^T (by the choice of T), which is what pins x to [a, b]. */
+    fn remainder_bound(a: &Integer, b: &Integer, T: u32) -> Integer {
+        Integer::from(2) * Integer::from((Integer::from(2).pow(T) * Integer::from(b - a)).sqrt_ref())
+            + Integer::from(2)
     }
 
     /* Algorithm 7 Proof with Tolerance Specific factor 2 ** T */
@@ -359,13 +366,9 @@ impl Boudot2000RangeProof {
         #       (i.e., NON-Interactive Sigma protocol of Two secrets - nisp2sec).
         #       We SKIP such Sigma protocol, assuming that this PoK was already done before the range proof. */
 
-        let aa = Integer::from(2).pow(T) * Integer::from(a)
-            - Integer::from(2).pow(l + t + rug::ops::DivRounding::div_floor(T, 2) + 1)
-                * Integer::from(Integer::from(b - a).sqrt_ref());
-
-        let bb = Integer::from(2).pow(T) * Integer::from(b)
-            + Integer::from(2).pow(l + t + rug::ops::DivRounding::div_floor(T, 2) + 1)
-                * Integer::from(Integer::from(b - a).sqrt_ref());
+        let aa = Integer::from(2).pow(T) * Integer::from(a);
+        let bb = Integer::from(2).pow(T) * Integer::from(b);
+        let bound = Self::remainder_bound(a, b, T);
 
         let x_a = &x - aa;
 
@@ -431,9 +434,9 @@ impl Boudot2000RangeProof {
         let proof_of_square_b =
             Self::proof_of_square::<H>(&x_b_1, &r_b_1, g, h, &E_b_1, l, t, b, s, s1, s2, n);
         let proof_large_i_a =
-            Self::proof_large_interval_specific::<H>(&x_a_2, &r_a_2, g, h, t, l, b, s, n, T);
+            Self::proof_large_interval_specific::<H>(&x_a_2, &r_a_2, g, h, t, l, &bound, s, n, T);
         let proof_large_i_b =
-            Self::proof_large_interval_specific::<H>(&x_b_2, &r_b_2, g, h, t, l, b, s, n, T);
+            Self::proof_large_interval_specific::<H>(&x_b_2, &r_b_2, g, h, t, l, &bound, s, n, T);
 
         // proof_wt = {
         //     'E_a_1': int(E_a_1), 'E_a_2': int(E_a_2), 'E_b_1': int(E_b_1), 'E_b_2': int(E_b_2),
@@ -469,12 +472,9 @@ impl Boudot2000RangeProof {
     where
         H: Digest,
     {
-        let aa = Integer::from(2).pow(T) * Integer::from(a)
-            - Integer::from(2).pow(l + t + rug::ops::DivRounding::div_floor(T, 2) + 1)
-                * Integer::from(Integer::from(b - a).sqrt_ref());
-        let bb = Integer::from(2).pow(T) * Integer::from(b)
-            + Integer::from(2).pow(l + t + rug::ops::DivRounding::div_floor(T, 2) + 1)
-                * Integer::from(Integer::from(b - a).sqrt_ref());
+        let aa = Integer::from(2).pow(T) * Integer::from(a);
+        let bb = Integer::from(2).pow(T) * Integer::from(b);
+        let bound = Self::remainder_bound(a, b, T);
         let E_a = divm(E, &Integer::from(g.pow_mod_ref(&aa, n).unwrap()), n);
         let E_b = divm(&Integer::from(g.pow_mod_ref(&bb, n).unwrap()), E, n);
         // NOTE: E_a and E_b must be recomputed during the verification,
@@ -511,7 +511,7 @@ impl Boudot2000RangeProof {
                 n,
                 t,
                 l,
-                b,
+                &bound,
                 T,
             ) && Self::verify_large_interval_specific::<H>(
                 proof_large_i_b,
@@ -521,7 +521,7 @@ impl Boudot2000RangeProof {
                 n,
                 t,
                 l,
-                b,
+                &bound,
                 T,
             );
             return b_s && b_li;
